@@ -41,12 +41,85 @@ DEC = [
     H("dec::null_bool", functions=DEC_FUNCS, bounds="all byte strings of length <= 2"),
     H("dec::long_full", functions=DEC_FUNCS, bounds="all byte strings of length <= 10 (full varint width)"),
     H("dec::int_full", functions=DEC_FUNCS, bounds="all byte strings of length <= 10"),
-    H("dec::long_kinds", functions=DEC_FUNCS, bounds="7 long-backed logical kinds x all byte strings of length <= 3"),
-    H("dec::int_kinds", functions=DEC_FUNCS, bounds="date/time-millis x all byte strings of length <= 3"),
+    H("dec::logical_kinds", functions=DEC_FUNCS, bounds="9 int/long-backed logical kinds x all byte strings of length <= 2"),
     H("dec::float_double", functions=DEC_FUNCS, bounds="all byte strings of length <= 9"),
-    H("dec::bytes_", functions=DEC_FUNCS, bounds="all byte strings of length <= 6, allocation limit 4"),
-    H("dec::string_", functions=DEC_FUNCS, bounds="all byte strings of length <= 6, allocation limit 4"),
+    H("dec::bytes_", functions=DEC_FUNCS, bounds="declared length 0..=3 (canonical 1-byte prefix, concrete) x all payloads x cuts (concrete)"),
+    H("dec::string_1", functions=DEC_FUNCS, bounds="1-byte strings: all payloads, complete and cut"),
+    H("dec::string_2", functions=DEC_FUNCS, bounds="2-byte strings: all payloads (UTF-8 validity vs reference), complete and cut"),
+    H("dec::string_3", functions=DEC_FUNCS, bounds="3-byte strings: all payloads (UTF-8 validity vs reference), complete and cut"),
     H("dec::fixed_", functions=DEC_FUNCS, bounds="fixed size 0..=4 x all byte strings of length <= 5"),
-    H("dec::enum_", functions=DEC_FUNCS, bounds="3 symbols x all byte strings of length <= 10"),
+    H("dec::enum_", functions=DEC_FUNCS, bounds="3 symbols x all byte strings of length <= 3"),
+    H("dec2::union_", functions=DEC_FUNCS, bounds="union[null,long,boolean], branch index 0..2 concrete x all 2-byte tails x cut in 1..=3"),
+    H("dec2::union_oob", tier="thorough", functions=DEC_FUNCS, bounds="union[null,long,boolean], branch index 3 (out of range) x all 2-byte tails x cut"),
+    H("dec2::record_", functions=DEC_FUNCS, bounds="record{a:long,b:boolean} x all byte strings of length <= 3"),
+    H("dec2::duration_", functions=DEC_FUNCS, bounds="all byte strings of length <= 13"),
+]
+ENC_FUNCS = ["encode::encode_internal", "encode::encode_bytes", "util::zig_i64", "util::zig_i32", "util::encode_variable"]
+ENC = [
+    H("enc::ints", functions=ENC_FUNCS, bounds="all i64 x 8 long kinds, all i32 x 3 int kinds"),
+    H("enc::scalars", functions=ENC_FUNCS, bounds="null, both booleans, all f32 and f64 bit patterns"),
+    H("enc::bytes_string_fixed", functions=ENC_FUNCS, bounds="all payloads of 0..=4 bytes (strings: all well-formed UTF-8)"),
+    H("enc::enum_", functions=ENC_FUNCS, bounds="3 symbols, Enum(i,s) and String(s) forms"),
 ]
 PROPS["DEC"] = {"harnesses": DEC, "outside": "", "assumptions": []}
+
+PROPS["ENC"] = {"harnesses": ENC, "outside": "", "assumptions": []}
+
+C13_FUNCS = ["encode::encode_internal", "encode::encode_bytes", "util::encode_variable"]
+PROPS["C13"] = {
+    "harnesses": [
+        H("c13::scalars", functions=C13_FUNCS, bounds="boolean / all f32 / all f64 x sinks accepting 1..255 bytes on each of the first 4 calls x one failing call (index 0..5 or none) of kind Other/Interrupted"),
+        H("c13::bytes_like", functions=C13_FUNCS, bounds="bytes/string/fixed with 3-byte payload x same sink family"),
+        H("c13::duration_union", functions=C13_FUNCS, bounds="all durations; union[null,boolean] branch 1 x same sink family"),
+        H("c13::array_", functions=C13_FUNCS, bounds="array<boolean> with 2 items x same sink family"),
+    ],
+    "outside": "more than 4 calls with independent accepted lengths (later calls accept everything); payloads longer than 3 bytes",
+    "assumptions": ["sinks obey the std::io::Write contract: Ok(n) with 1 <= n <= buf.len(), or Err; an Interrupted error is transient"],
+}
+
+PROPS["C19"] = {
+    "harnesses": [
+        H("c19::limit_first_set_wins", functions=["util::max_allocation_bytes", "util::safe_len", "util::safe_collection_len"], bounds="all x, y, n: usize (limit 0..=usize::MAX); real OnceLock"),
+        H("c19::limit_default_on_first_use", functions=["util::max_allocation_bytes", "util::safe_len"], bounds="all n, y: usize; real OnceLock"),
+        H("c19::human_readable_first_set_wins", functions=["util::set_serde_human_readable", "util::is_human_readable"], bounds="all (a, b) in bool x bool"),
+        H("c19::limit_applied_by_decode_len", functions=["decode::decode_len", "util::zag_i64", "util::safe_len", "util::max_allocation_bytes"], bounds="all limits x: usize x all 3-byte inputs"),
+    ],
+    "outside": "the 'schedules' quantifier: no thread interleaving is explored (Kani does not model threads); thread-safety rests on std::sync::OnceLock",
+    "assumptions": ["single-threaded histories only"],
+}
+PROPS["C12"] = {
+    "harnesses": [
+        H("c12::rabin_table", functions=["rabin::fp_table", "rabin::Rabin::finalize_into"], bounds="all 256 table indexes (symbolic index, table generation unrolled: unwind 260)"),
+        H("c12::rabin_two_bytes", functions=["rabin::Rabin::update", "rabin::Rabin::finalize_into", "rabin::fp_table"], bounds="all inputs of 1 and 2 bytes; one vs two update calls"),
+    ],
+    "outside": "the canonical-form text transformation, irrelevance/idempotence laws, MD5/SHA-256 (text processing and external digest crates: not symbolically executable)",
+    "assumptions": [],
+}
+
+C14_FUNCS = ["reader::Reader::next", "reader::block::Block::read_next", "reader::block::Block::read_block_next", "reader::block::Block::fill_buf", "util::read_usize", "decode::decode_internal"]
+PROPS["C14"] = {
+    "harnesses": [
+        H("c14::cuts_a", functions=C14_FUNCS, bounds="2 blocks x 1 long item (19 bytes each), cut at offsets {0,1,2,3,4,10,18,19}, all one-byte item values"),
+        H("c14::cuts_b", functions=C14_FUNCS, bounds="same region, cut at {20,21,22,23,30,37,38}"),
+        H("c14::cuts_c", tier="thorough", functions=C14_FUNCS, bounds="same region, cut at {5..9,11..17}"),
+        H("c14::cuts_d", tier="thorough", functions=C14_FUNCS, bounds="same region, cut at {24..29,31..36}"),
+        H("c14::cuts_two_byte_count", functions=C14_FUNCS, bounds="1 block of 64 zero-width items (2-byte count varint), cut at {0,1,2,3,10,18,19}"),
+        H("c14::marker_first_lo", functions=C14_FUNCS, bounds="first block's marker bytes 0..7 x all 255 non-zero xor masks"),
+        H("c14::marker_first_hi", tier="thorough", functions=C14_FUNCS, bounds="first block's marker bytes 8..15 x all masks"),
+        H("c14::marker_second_lo", tier="thorough", functions=C14_FUNCS, bounds="second block's marker bytes 0..7 x all masks"),
+        H("c14::marker_second_hi", functions=C14_FUNCS, bounds="second block's marker bytes 8..15 x all masks"),
+    ],
+    "outside": "the file header (magic, metadata map with the JSON schema, marker): header parsing goes through serde_json and the schema parser and is not symbolically executable; the Block reader is put into the state read_header leaves it in. Compressed codecs. Files with more than 2 blocks / items wider than one byte.",
+    "assumptions": ["Block state after read_header is {marker, codec null, writer schema, empty buffer}, constructed directly"],
+}
+C18_FUNCS = ["headers::RabinFingerprintHeader::build_header", "reader::single_object::GenericSingleObjectReader::read_value", "reader::single_object::GenericSingleObjectReader::read_header", "writer::single_object::GenericSingleObjectWriter::write_value_ref", "writer::single_object::write_value_ref_owned_resolved"]
+PROPS["C18"] = {
+    "harnesses": [
+        H("c18::header_layout", functions=C18_FUNCS[:1], bounds="all 8-byte fingerprints"),
+        H("c18::reader_rejects_foreign_header", functions=C18_FUNCS[1:3], bounds="schema long; all 12-byte inputs x all lengths 0..=12 (every truncation and every alteration of the 10 header bytes)"),
+        H("c18::writer_buffer_reuse", functions=C18_FUNCS[3:], bounds="schema long; 2 calls on one writer, all (i64, i64), first sink failing or not"),
+        H("c12::rabin_two_bytes", functions=["rabin::Rabin::update"], bounds="all 1- and 2-byte inputs vs bitwise CRC-64-AVRO"),
+    ],
+    "outside": "the canonical form text the fingerprint is computed from (text processing); typed (derive-based) writers/readers; sequences longer than 2 calls",
+    "assumptions": ["the 10 expected header bytes are a fixed concrete header; the fingerprint arithmetic is covered by the Rabin harnesses"],
+}
